@@ -13,7 +13,7 @@ use simcore::{Alg, Rng};
 
 use crate::recipe::tlv;
 
-static RSA_POOL: [&[u8]; 7] = [
+static RSA_POOL: [&[u8]; 55] = [
     include_bytes!("../../../fixtures/rsa/rsa2048a.pk8.der"),
     include_bytes!("../../../fixtures/rsa/rsa2048b.pk8.der"),
     include_bytes!("../../../fixtures/rsa/rsa3072a.pk8.der"),
@@ -26,8 +26,60 @@ static RSA_POOL: [&[u8]; 7] = [
     // 9216 bits: larger than either back end loads; only ever held by a simulated remote
     // signer (an HSM is free to hold such a key), never drawn by `draw` / `draw_common`
     include_bytes!("../../../fixtures/rsa/rsa9216a.pk8.der"),
+    // 1536 bits, forty-eight of them (as OpenSSL made them, none selected): below what either back end loads or generates, but an HSM may
+    // still hold such legacy keys and OpenSSL verifies their signatures; remote signers only
+    include_bytes!("../../../fixtures/rsa/rsa1536_00.pk8.der"),
+    include_bytes!("../../../fixtures/rsa/rsa1536_01.pk8.der"),
+    include_bytes!("../../../fixtures/rsa/rsa1536_02.pk8.der"),
+    include_bytes!("../../../fixtures/rsa/rsa1536_03.pk8.der"),
+    include_bytes!("../../../fixtures/rsa/rsa1536_04.pk8.der"),
+    include_bytes!("../../../fixtures/rsa/rsa1536_05.pk8.der"),
+    include_bytes!("../../../fixtures/rsa/rsa1536_06.pk8.der"),
+    include_bytes!("../../../fixtures/rsa/rsa1536_07.pk8.der"),
+    include_bytes!("../../../fixtures/rsa/rsa1536_08.pk8.der"),
+    include_bytes!("../../../fixtures/rsa/rsa1536_09.pk8.der"),
+    include_bytes!("../../../fixtures/rsa/rsa1536_10.pk8.der"),
+    include_bytes!("../../../fixtures/rsa/rsa1536_11.pk8.der"),
+    include_bytes!("../../../fixtures/rsa/rsa1536_12.pk8.der"),
+    include_bytes!("../../../fixtures/rsa/rsa1536_13.pk8.der"),
+    include_bytes!("../../../fixtures/rsa/rsa1536_14.pk8.der"),
+    include_bytes!("../../../fixtures/rsa/rsa1536_15.pk8.der"),
+    include_bytes!("../../../fixtures/rsa/rsa1536_16.pk8.der"),
+    include_bytes!("../../../fixtures/rsa/rsa1536_17.pk8.der"),
+    include_bytes!("../../../fixtures/rsa/rsa1536_18.pk8.der"),
+    include_bytes!("../../../fixtures/rsa/rsa1536_19.pk8.der"),
+    include_bytes!("../../../fixtures/rsa/rsa1536_20.pk8.der"),
+    include_bytes!("../../../fixtures/rsa/rsa1536_21.pk8.der"),
+    include_bytes!("../../../fixtures/rsa/rsa1536_22.pk8.der"),
+    include_bytes!("../../../fixtures/rsa/rsa1536_23.pk8.der"),
+    include_bytes!("../../../fixtures/rsa/rsa1536_24.pk8.der"),
+    include_bytes!("../../../fixtures/rsa/rsa1536_25.pk8.der"),
+    include_bytes!("../../../fixtures/rsa/rsa1536_26.pk8.der"),
+    include_bytes!("../../../fixtures/rsa/rsa1536_27.pk8.der"),
+    include_bytes!("../../../fixtures/rsa/rsa1536_28.pk8.der"),
+    include_bytes!("../../../fixtures/rsa/rsa1536_29.pk8.der"),
+    include_bytes!("../../../fixtures/rsa/rsa1536_30.pk8.der"),
+    include_bytes!("../../../fixtures/rsa/rsa1536_31.pk8.der"),
+    include_bytes!("../../../fixtures/rsa/rsa1536_32.pk8.der"),
+    include_bytes!("../../../fixtures/rsa/rsa1536_33.pk8.der"),
+    include_bytes!("../../../fixtures/rsa/rsa1536_34.pk8.der"),
+    include_bytes!("../../../fixtures/rsa/rsa1536_35.pk8.der"),
+    include_bytes!("../../../fixtures/rsa/rsa1536_36.pk8.der"),
+    include_bytes!("../../../fixtures/rsa/rsa1536_37.pk8.der"),
+    include_bytes!("../../../fixtures/rsa/rsa1536_38.pk8.der"),
+    include_bytes!("../../../fixtures/rsa/rsa1536_39.pk8.der"),
+    include_bytes!("../../../fixtures/rsa/rsa1536_40.pk8.der"),
+    include_bytes!("../../../fixtures/rsa/rsa1536_41.pk8.der"),
+    include_bytes!("../../../fixtures/rsa/rsa1536_42.pk8.der"),
+    include_bytes!("../../../fixtures/rsa/rsa1536_43.pk8.der"),
+    include_bytes!("../../../fixtures/rsa/rsa1536_44.pk8.der"),
+    include_bytes!("../../../fixtures/rsa/rsa1536_45.pk8.der"),
+    include_bytes!("../../../fixtures/rsa/rsa1536_46.pk8.der"),
+    include_bytes!("../../../fixtures/rsa/rsa1536_47.pk8.der"),
 ];
 pub const RSA_POOL_REMOTE_ONLY: u8 = 6;
+/// first index and number of the small remote-only keys
+pub const RSA_POOL_SMALL_REMOTE_ONLY: (u8, u8) = (7, 48);
 
 /// How a key is provisioned; part of the explicit trace.
 #[derive(Clone, Debug, PartialEq, Eq, Serialize, Deserialize)]
@@ -74,6 +126,22 @@ pub struct SimKey {
     /// SubjectPublicKeyInfo assembled by hand from the algid table and raw_pub
     pub spki: Vec<u8>,
     pkey: PKey<Private>,
+}
+
+impl SimKey {
+    /// The same RSA key labelled with another signature hash (the public key does not change).
+    pub fn with_alg(&self, alg: Alg) -> SimKey {
+        assert!(self.alg.is_rsa() && alg.is_rsa());
+        SimKey {
+            spec: KeySpec { alg, material: self.spec.material.clone() },
+            alg,
+            pkcs8: self.pkcs8.clone(),
+            legacy: self.legacy.clone(),
+            raw_pub: self.raw_pub.clone(),
+            spki: self.spki.clone(),
+            pkey: self.pkey.clone(),
+        }
+    }
 }
 
 fn curve(alg: Alg) -> Nid {
